@@ -12,7 +12,7 @@ import (
 )
 
 func newShared() *shared {
-	return &shared{body: &strings.Builder{}, heapKeys: map[string]string{}, structs: map[string]*types.Struct{}, strLits: map[string]string{},
+	return &shared{body: &strings.Builder{}, heapKeys: map[string]string{}, structs: map[string]*types.Struct{}, structNames: map[string]string{}, strLits: map[string]string{},
 		globals: map[string]string{}, entryHeap: map[string]string{}, assumptions: map[string]bool{}, ufs: map[string]string{},
 		typeIDs: map[string]int{}, kindCount: map[string]int{}, sentinels: map[string]bool{}, calls: map[string]bool{},
 		globalConsts: map[string]string{}, features: map[string]bool{}}
